@@ -37,8 +37,8 @@ Proof. exact assign_map_in. Qed.
 Print Assumptions c10_no_forbidden_update_map.
 
 (* no column without create permission is in an INSERT (struct, slice) ... *)
-Theorem c10_no_forbidden_create : forall s table, wf s -> forall selects omits anyk f,
-  In f (create_fields s (select_and_omit s table selects omits true false) anyk) ->
+Theorem c10_no_forbidden_create : forall s table, wf s -> forall selects omits ps f,
+  In f (create_fields s (select_and_omit s table selects omits true false) ps) ->
   In f s /\ has_col f = true /\ creatable f = true.
 Proof. exact create_fields_creatable. Qed.
 Print Assumptions c10_no_forbidden_create.
@@ -143,10 +143,23 @@ Theorem c10_first_or_init_no_cells : forall s table selects omits ps stored mk w
 Proof. exact foi_assign_cells. Qed.
 Print Assumptions c10_first_or_init_no_cells.
 
-Theorem c10_key_match : forall mk ks, key_match mk ks = true ->
+Theorem c10_key_match : forall mk ks, key_match (MStruct mk) ks = true ->
   forall m k, In (m, k) (combine mk ks) -> m = 0 \/ k = m.
 Proof. exact key_match_spec. Qed.
 Print Assumptions c10_key_match.
+
+(* a slice model value whose LAST element is keyed restricts the update to the elements' non-zero keys.
+   PARTIAL: when the last element is key-less the code adds no key restriction at all (see
+   c10_slice_model_last_keyless_refuted) *)
+Theorem c10_slice_model_partial : forall l ks, key_match (MSlice l) ks = true -> last l 0 <> 0 ->
+  In (hd 0 ks) l /\ hd 0 ks <> 0.
+Proof. exact slice_match_spec. Qed.
+Print Assumptions c10_slice_model_partial.
+
+Theorem c10_slice_model_last_keyless_refuted : exists l ks,
+  key_match (MSlice l) ks = true /\ ~ In (hd 0 ks) l.
+Proof. exact slice_match_refuted. Qed.
+Print Assumptions c10_slice_model_last_keyless_refuted.
 
 Theorem c10_create_cells : forall s table, wf s -> forall o selects omits ps stored mk wh x,
   (o = OCreate \/ o = OCreateBatch) ->
